@@ -654,8 +654,17 @@ def cmd_show(args):
     print("no such mutant")
 
 
+def ensure_runners():
+    """the unmutated runners must be up to date (a stale Run/*.vo would look like a kill)"""
+    targets = [l.strip()[:-2] + ".vo" for l in open(os.path.join(COQ, "_CoqProject")) if l.startswith("Run/") and l.strip().endswith(".v")]
+    rc, out = sh(["make", "-f", "Makefile.coq", "-j", str(JOBS)] + targets, cwd=COQ, timeout=3000)
+    if rc != 0:
+        raise SystemExit("building the runners failed:\n" + out[-2000:])
+
+
 def cmd_cases(args):
     os.makedirs(MM, exist_ok=True)
+    ensure_runners()
     streams = args.streams.split(",") if args.streams else STREAMS
     mp = os.path.join(MM, "cases.json")
     meta = json.load(open(mp)) if os.path.exists(mp) and args.streams else {}
@@ -690,6 +699,14 @@ def cmd_run(args):
     for f in files:
         cbf[f], srcs[f] = candidates(f)
     byid = {c["id"]: c for f in files for c in cbf[f]}
+    if args.exclude:
+        # a further sample: leave out the mutants (and the candidates found ill-typed) of earlier campaigns
+        gone = set()
+        for p in args.exclude.split(","):
+            prev = json.load(open(p))
+            gone |= {m["id"] for m in prev["mutants"]} | {m["id"] for m in prev["discarded"]}
+        for f in files:
+            cbf[f] = [c for c in cbf[f] if c["id"] not in gone]
     fixed = None
     if args.only:
         fixed = [byid[i] for i in args.only.split(",")]
@@ -947,6 +964,7 @@ def main():
     a.add_argument("--only", default="")
     a.add_argument("--from", dest="from_json", default="")
     a.add_argument("--survivors-of", default="")
+    a.add_argument("--exclude", default="", help="results json files of earlier campaigns whose mutants are left out")
     a.add_argument("--full-matrix", action="store_true", help="every mutant against every relevant stream (slow)")
     a.add_argument("--matrix-min", type=float, default=20.0, help="time budget (minutes) of the matrix phase")
     a.add_argument("--out", default="")
